@@ -192,7 +192,8 @@ SOURCES = [
     "query A { f } query B { n }", "mutation M($x: Int!) { m(x: $x) }", "{ lst { x nn } u { ... on G { x } } it { x } }",
     "{ g { nn } }", "{ n }", "query ($o: In) { f(o: $o) }", "query ($l: [Int!]) { f(l: $l) }", "query ($e: Color) { f(e: $e) }",
     "{ unknown }", "{ f(zzz: 1) }", "{ f", "", "   ", "\ufeff", "{ f(a: \"\\", "{ f(a: \"\\u12", "fragment F on Query { f }", "{ ...F }",
-    "{ ...F } fragment F on Query { ...F }", "subscription { f }", "{ __typename __schema { types { name } } }", "{ f @skip(if: $nope) }",
+    "{ ...F } fragment F on Query { ...F }", "mutation { ...F } fragment F on Mutation { ...F }", "subscription { ...A } fragment A on Query { ...B } fragment B on Query { ...A }",
+    "mutation { ...F @defer } fragment F on Mutation { m(x: 1) @stream ...F }", "subscription { f }", "{ __typename __schema { types { name } } }", "{ f @skip(if: $nope) }",
     "query ($v: Nope) { f }", "type T { a: Int }", "query ($v: ID, $i: Float, $x: Boolean) { f(a: $v) }", "query ($o: [In!]!, $e: [[Color]]) { f }",
     "query ($v: String = \"d\", $x: Int! = 1, $l: [Int!] = [1], $o: In = {a: 2}, $i: Int) { f(a: $v, i: $i, l: $l, o: $o) m: f(i: $x) }", "{ f(a: $v) }", "query ($v: String!) { f(a: $v) }", "{ g { g { g { g { nn } } } } }",
 ]
